@@ -10,14 +10,17 @@ the correspondence check).  The machine never writes an `Env`; its own writes (`
 of a spawned worker) show up in the observations the environment hands back.
 
 `next new pc e` = (the operation announced next, the program counter after announcing it), where `e` is the
-observation made after the previous operation.  The result of an `alive(p)` call is read from the NEXT observation
-(`aliveIn p e`; a pid that is no longer registered counts as dead).  Import-free.
+observation made after the previous operation.  The RESULT of the previous operation is part of that observation
+when it matters: `lastAlive` (what `Process.is_alive()` returned — it is called on the process OBJECT held in the
+snapshot, so it has nothing to do with the worker still being registered) and `lastTimeout` (the put timed out).
+`procs` is what the code reads from the dict: `len(self._processes)` and the snapshots
+`list(self._processes.values())`, of which only the pids matter (the Bool is not read by `next`).  Import-free.
 -/
 namespace LokyModel.Resize
 
 structure Env where
   pending  : Nat := 0               -- len(_pending_work_items)
-  procs    : List (Nat × Bool) := []   -- registered workers in dict order: (pid, is_alive)
+  procs    : List (Nat × Bool) := []   -- registered workers in dict order: (pid, flag); the flag is not read by `next`
   broken   : Bool := false
   shutdown : Bool := false
   mw       : Nat := 0               -- executor._max_workers
@@ -26,6 +29,8 @@ structure Env where
   nextPid  : Nat := 0               -- pid the next spawned worker gets
   lastTimeout : Bool := false       -- the thread's PREVIOUS operation ended with its time-out variant
                                     -- (only `acquire(cq.sem,B,T)` can)
+  lastAlive : Bool := true          -- result of the thread's PREVIOUS operation when that was an `alive(p)`
+                                    -- (only read by the two pcs that have just announced an `alive`)
 deriving Repr, DecidableEq, Inhabited
 
 inductive Label
@@ -74,12 +79,6 @@ def flagged (e : Env) : Bool := e.broken || e.shutdown
 /-- `list(self._processes.values())`: the pids in dict order -/
 def pids (e : Env) : List Nat := e.procs.map Prod.fst
 
-/-- result of `p.is_alive()` as the observation `e` reports it; not registered any more: dead -/
-def aliveIn (p : Nat) (e : Env) : Bool :=
-  match e.procs.find? (fun x => x.1 == p) with
-  | some x => x.2
-  | none => false
-
 /-- `while self._pending_work_items: sleep` -/
 def jobStep (e : Env) : Label × Pc :=
   if e.pending = 0 then (.acqMgmt, .mgmtHeld) else (.sleep, .jobWait)
@@ -117,7 +116,7 @@ def next (new : Nat) (pc : Pc) (e : Env) : Label × Pc :=
       else jobStep e
   | .jobWait => jobStep e
   | .mgmtHeld => scanStep new (pids e) 0 e
-  | .scan cur todo cnt => scanStep new todo (cnt + if aliveIn cur e then 1 else 0) e
+  | .scan _ todo cnt => scanStep new todo (cnt + if e.lastAlive then 1 else 0) e
   | .sentAcq rem =>
       if e.lastTimeout then sentStep (rem + 1) e         -- `queue.Full`: the flags are re-checked, same sentinel again
       else if e.feeder then sentStep rem e               -- posted; on to the next sentinel
@@ -129,7 +128,7 @@ def next (new : Nat) (pc : Pc) (e : Env) : Label × Pc :=
   | .spawned => spawnStep new e
   | .woke => (.relShut, .arrive)
   | .arrive => if flagged e then (.relExec, .done) else arrStep (pids e)
-  | .arrScan cur todo => if aliveIn cur e then arrStep todo else (.sleep, .arrive)
+  | .arrScan _ todo => if e.lastAlive then arrStep todo else (.sleep, .arrive)
   | .done => (.ret, .done)
 
 /-- a finite run: one observation per announced operation -/
